@@ -8,15 +8,17 @@
 (* faithful layer; every transition is emitted for replay on real sets (G).   *)
 EXTENDS Orswot, TLC, Json
 
-CONSTANTS Times, Replicas, MaxOps, MaxMerges, Mode, RepairSrc, EmitEdges
+CONSTANTS Times, Replicas, MaxOps, MaxMerges, Mode, RepairSrc, EmitEdges,
+          WithPurge    \* TRUE: any replica may purge at any moment (C08's local facts on sets reached through merges)
 
 VARIABLES log,     \* sequence of issued operations [k, ts, del], sorted by stamp (arrival order is decided by Apply)
           rep,     \* replica -> set state
           ap,      \* replica -> set of log indexes applied (directly, by merge or by repair)
           merges,  \* number of merge / repair transitions taken
+          pm,      \* replica -> origin node -> greatest delete stamp of that node the replica has purged (or None)
           op
-vars == <<log, rep, ap, merges, op>>
-MCView == [log |-> log, rep |-> rep, ap |-> ap, merges |-> merges]
+vars == <<log, rep, ap, merges, pm, op>>
+MCView == [log |-> log, rep |-> rep, ap |-> ap, merges |-> merges, pm |-> pm]
 
 Stamps == { <<t, 0, n>> : t \in Times, n \in Nodes }
 UsedStamps == { log[i].ts : i \in 1..Len(log) }
@@ -26,6 +28,7 @@ Init ==
   /\ rep = [r \in Replicas |-> EmptySet]
   /\ ap = [r \in Replicas |-> {}]
   /\ merges = 0
+  /\ pm = [r \in Replicas |-> [n \in Nodes |-> None]]
   /\ op = [kind |-> "init"]
 
 Issue(k, ts, del) ==
@@ -33,7 +36,7 @@ Issue(k, ts, del) ==
   /\ ts \notin UsedStamps
   /\ \A i \in 1..Len(log) : Lt(log[i].ts, ts)     \* the log is kept sorted by stamp (canonical form of a set of operations)
   /\ log' = Append(log, [k |-> k, ts |-> ts, del |-> del])
-  /\ UNCHANGED <<rep, ap, merges>>
+  /\ UNCHANGED <<rep, ap, merges, pm>>
   /\ op' = [kind |-> "issue", key |-> k, ts |-> ts, del |-> del]
 
 CanApply(r, i) ==
@@ -47,7 +50,7 @@ Apply(r, i) ==
      /\ CanApply(r, i)
      /\ rep' = [rep EXCEPT ![r] = res[2]]
      /\ ap' = [ap EXCEPT ![r] = @ \cup {i}]
-     /\ UNCHANGED <<log, merges>>
+     /\ UNCHANGED <<log, merges, pm>>
      /\ op' = [kind |-> "apply", r |-> r, key |-> o.k, ts |-> o.ts, del |-> o.del]
 
 MergeInto(r, r2) ==
@@ -56,7 +59,7 @@ MergeInto(r, r2) ==
   /\ rep' = [rep EXCEPT ![r] = Merge(rep[r], rep[r2])]
   /\ ap' = [ap EXCEPT ![r] = @ \cup ap[r2]]
   /\ merges' = merges + 1
-  /\ UNCHANGED log
+  /\ UNCHANGED <<log, pm>>
   /\ op' = [kind |-> "merge", r |-> r, r2 |-> r2]
 
 Repair(r, r2, remFirst) ==
@@ -65,10 +68,22 @@ Repair(r, r2, remFirst) ==
   /\ rep' = [rep EXCEPT ![r] = ApplyDiff(rep[r], rep[r2], RepairSrc, remFirst)]
   /\ ap' = [ap EXCEPT ![r] = @ \cup ap[r2]]
   /\ merges' = merges + 1
-  /\ UNCHANGED log
+  /\ UNCHANGED <<log, pm>>
   /\ op' = [kind |-> "repair", r |-> r, r2 |-> r2, remFirst |-> remFirst]
 
+\* OrSWotSet::purge_old_deletes on one replica, at any moment
+PurgeAt(r) ==
+  LET p == Purge(rep[r])
+  IN /\ WithPurge
+     /\ rep' = [rep EXCEPT ![r] = p[2]]
+     /\ pm' = [pm EXCEPT ![r] = [n \in Nodes |->
+                  LET mine == { q[2] : q \in { x \in p[1] : x[2][3] = n } }
+                  IN IF mine = {} THEN pm[r][n] ELSE MaxOpt(pm[r][n], MaxOf(mine))]]
+     /\ UNCHANGED <<log, ap, merges>>
+     /\ op' = [kind |-> "purge", r |-> r]
+
 Next ==
+  \/ \E r \in Replicas : PurgeAt(r)
   \/ \E k \in Keys, ts \in Stamps, del \in BOOLEAN : Issue(k, ts, del)
   \/ \E r \in Replicas, i \in 1..MaxOps : Apply(r, i)
   \/ \E r, r2 \in Replicas : MergeInto(r, r2)
@@ -101,6 +116,18 @@ C05_MutualRepair == \A i, j \in Replicas : i < j => \A f, g \in BOOLEAN :
                       Live(ApplyDiff(rep[i], rep[j], RepairSrc, f)) = Live(ApplyDiff(rep[j], rep[i], RepairSrc, g))
 
 WellFormedInv == \A r \in Replicas : WellFormed(rep[r])
+
+----------------------------------------------------------------------------
+\* C08 (local facts) on sets reached through applies, merges and repairs: a purge changes nothing that is live, and
+\* whatever a replica has purged stays refused on it: every operation of the deleting node not newer than the purged delete
+RefusedOn(s, k, ts) ==
+  /\ ~WillApply(s, k, ts)
+  /\ \A src \in Sources : /\ ~InsertWS(s, src, k, ts)[1] /\ Live(InsertWS(s, src, k, ts)[2]) = Live(s)
+                          /\ ~DeleteWS(s, src, k, ts)[1] /\ Live(DeleteWS(s, src, k, ts)[2]) = Live(s)
+C08_StillRefused ==
+  \A r \in Replicas, n \in Nodes : pm[r][n] # None =>
+     \A k \in Keys, ts \in Stamps : (ts[3] = n /\ Le(ts, pm[r][n])) => RefusedOn(rep[r], k, ts)
+C08_PurgeInvisible == [][ op'.kind = "purge" => \A r \in Replicas : Live(rep'[r]) = Live(rep[r]) ]_vars
 
 ----------------------------------------------------------------------------
 \* (G) edge emission.  `diffs` is the oracle's DiffSpec for every ordered pair of the target state.
